@@ -1173,13 +1173,7 @@ impl ops::Add<Program> for Program {
 
 impl ops::AddAssign<Program> for Program {
     fn add_assign(&mut self, rhs: Program) {
-        let calibration_count = |calibrations: &Calibrations| {
-            calibrations.calibrations.len() + calibrations.measure_calibrations.len()
-        };
-        let calibrations_if_disjoint =
-            calibration_count(&self.calibrations) + calibration_count(&rhs.calibrations);
         self.calibrations.extend(rhs.calibrations);
-        let calibration_replaced = calibration_count(&self.calibrations) < calibrations_if_disjoint;
         self.memory_regions.extend(rhs.memory_regions);
         self.frames.merge(rhs.frames);
         self.waveforms.extend(rhs.waveforms);
@@ -1188,10 +1182,6 @@ impl ops::AddAssign<Program> for Program {
         self.extern_pragma_map.extend(rhs.extern_pragma_map);
         self.instructions.extend(rhs.instructions);
         self.used_qubits.extend(rhs.used_qubits);
-        if calibration_replaced {
-            // The replaced definitions' qubits may no longer be mentioned anywhere.
-            self.rebuild_used_qubits();
-        }
     }
 }
 
